@@ -116,6 +116,9 @@ struct CaseCtx {
   int reportable(const std::string &prop) const;  // events of prop not matched by a finding
 };
 extern CaseCtx *cur;
+// a property (besides C07) whose statement itself forbids memory errors in the operation in flight; set by
+// the sweeps around such operations (C04: prefix search without a match), empty otherwise
+extern std::string asan_also_prop;
 
 // ---------------------------------------------------------------- plumbing
 void load_findings(const std::string &path);
